@@ -164,14 +164,6 @@ Theorem slice_refines : forall a st en, InvA a -> i_len a <= MAXIDX ->
   a_slice primI a st en = a_slice primS (absA a) st en.
 Proof. exact ProofsAlgo.slice_refines. Qed.
 
-(* 2k. open finding C07-N13: the growing splice FAST PATH differs from the generic algorithm (which refines S, 2j)
-      when Array.prototype carries an accessor / non-writable element at a new index *)
-Theorem splice_fastpath_proto_refuted :
-  d_guard n13_state = true /\
-  snd (i_splice (ID n13_state) 0 (Some 0%Z) [9]) <> snd (a_splice primS (absD n13_state) 0 (Some 0%Z) [9]) /\
-  snd (a_splice primI (ID n13_state) 0 (Some 0%Z) [9]) = snd (a_splice primS (absD n13_state) 0 (Some 0%Z) [9]).
-Proof. exact Proofs.splice_fastpath_proto_refuted. Qed.
-
 (* 3. switching the storage strategy, in either direction, never changes the abstract array *)
 Theorem transition_invisible :
   (forall a, absS (expand_d2s a) = absD a) /\
@@ -235,7 +227,6 @@ Print Assumptions shift_refines.
 Print Assumptions unshift_refines.
 Print Assumptions splice_refines.
 Print Assumptions slice_refines.
-Print Assumptions splice_fastpath_proto_refuted.
 Print Assumptions transition_invisible.
 Print Assumptions setlength_nonconfigurable_tail.
 Print Assumptions check_sort_sound.
